@@ -87,12 +87,14 @@ def run(chk):
             bad_status.append(i)
         if r["margin"] < 50:
             low_margin.append(i)
+        if r["hist"] >= 1000:
+            hist["long_id_history"] += 1
         if r["S"] >= 2 and r["order"] != "free" and r["order"] != "perm:" + ".".join(str(k) for k in range(r["S"])):
             nontrivial.add((r["kind"], r["hist"], r["S"], r["order"]))
     differing = []
     tie_groups = []
     for key, idx in list(groups.items()):
-        free = [runs[i]["recs"] for i in idx if runs[i]["order"] == "free" and runs[i]["status"] == "ok"]
+        free = [runs[i]["recs"] for i in idx if runs[i]["order"] == "free" and runs[i]["S"] == 1 and runs[i]["status"] == "ok"]
         if key[0] == "visual" and any(f != free[0] for f in free[1:]):
             # the sequential reference disagrees with itself: an exact tie in the appearance stage (whose margins the
             # generator cannot assert; positional margins are asserted, so for `sort` this is never excused)
@@ -156,7 +158,9 @@ def run(chk):
     # a history the generator failed to make tie-free is never evidence against the implementation: it is skipped
     if bad_status:
         r = runs[bad_status[0]]
-        chk.violation("C05:" + r["status"].split(":")[0], "a tracker run did not complete under a forced worker order: " + r["status"],
+        chk.violation("C05:" + r["status"].split(":")[0],
+                      "a tracker run did not complete (%s) with %d shards, order %s, while the same history completes with other shard counts: %s"
+                      % (r["kind"], r["S"], r["order"], r["status"]),
                       {"input": "kind=%s hist=%d S=%d order=%s seed=%s" % (r["kind"], r["hist"], r["S"], r["order"], chk.seed),
                        "replay_cmd": vlib.harness_bin("sched") + " c05 --seed %s --n %d --tier %s | grep 'hist=%d '" % (chk.seed, n, chk.tier, r["hist"]),
                        "broken": chk.broken})
